@@ -267,117 +267,6 @@ def trace_inputs(tr):
     return [int(m.group(1)) for m in TRACE_IN_RE.finditer(tr)]
 
 
-_locks = {}
-_locks_guard = threading.Lock()
-
-
-def _lock_for(key):
-    with _locks_guard:
-        if key not in _locks:
-            _locks[key] = threading.Lock()
-        return _locks[key]
-
-
-def compile_goto(q, workdir, witness):
-    tag = hashlib.sha1(q.compile_key(witness).encode()).hexdigest()[:16]
-    with _lock_for(tag):
-        return _compile_goto(q, workdir, witness, tag)
-
-
-def _compile_goto(q, workdir, witness, tag):
-    gb = os.path.join(workdir, "h_%s.gb" % tag)
-    if os.path.exists(gb):
-        return gb, "", 0.0
-    srcs = [os.path.join(HARNESS_DIR, q.harness), os.path.join(HARNESS_DIR, "verif_rt.c")]
-    srcs += unit_paths(q.units)
-    tmp = gb + ".tmp%d" % os.getpid()
-    cmd = ["goto-cc", "-o", tmp] + cc_common(q, witness) + srcs
-    # goto-cc drops intermediate objects named after the sources into its cwd: give every
-    # compile its own directory or concurrent compiles of the same sources collide
-    cdir = tempfile.mkdtemp(prefix="cc_", dir=workdir)
-    rc, out, wall, st = run_cmd(cmd, 300, cwd=cdir)
-    shutil.rmtree(cdir, ignore_errors=True)
-    if rc != 0 or not os.path.exists(tmp):
-        return None, "goto-cc failed (rc=%s):\n%s\n%s" % (rc, " ".join(cmd), out), wall
-    os.replace(tmp, gb)
-    return gb, out, wall
-
-
-def cbmc_cmd(q, gb, witness, trace):
-    cmd = ["cbmc", gb, "--function", q.entry, "--drop-unused-functions",
-           "--no-malloc-may-fail"]
-    if q.unwind is not None:
-        cmd += ["--unwind", str(q.unwind)]
-    if q.unwindset:
-        cmd += ["--unwindset", ",".join("%s:%s" % kv for kv in sorted(q.unwindset.items()))]
-    if q.depth:
-        cmd += ["--depth", str(q.depth)]
-    if witness:
-        cmd += ["--no-standard-checks"]
-    else:
-        cmd += ["--unwinding-assertions", "--pointer-overflow-check",
-                "--undefined-shift-check", "--signed-overflow-check"]
-        if q.leak_check:
-            cmd += ["--memory-leak-check"]
-        if trace:
-            cmd += ["--trace"]
-    if q.object_bits:
-        cmd += ["--object-bits", str(q.object_bits)]
-    be = q.backend
-    if be == "z3":
-        cmd += ["--z3"]
-    elif be == "cvc5":
-        cmd += ["--cvc5"]
-    elif be == "kissat":
-        cmd += ["--external-sat-solver", "kissat"]
-    elif be == "cadical":
-        cmd += ["--sat-solver", "cadical"]
-    for f in q.flags:
-        if witness and f in ("--memory-leak-check",):
-            continue
-        cmd.append(f)
-    return cmd
-
-
-RES_RE = re.compile(r"^\[(?P<id>[^\]]+)\] (?:line \d+ )?(?P<desc>.*): (?P<st>SUCCESS|FAILURE|UNKNOWN|ERROR)$", re.M)
-
-
-def parse_cbmc(out):
-    info = {}
-    m = re.search(r"size of program expression: (\d+) steps", out)
-    if m:
-        info["symex_steps"] = int(m.group(1))
-    m = re.search(r"Generated (\d+) VCC\(s\), (\d+) remaining after simplification", out)
-    if m:
-        info["vccs"] = int(m.group(1))
-        info["vccs_remaining"] = int(m.group(2))
-    m = re.findall(r"(\d+) variables, (\d+) clauses", out)
-    if m:
-        info["sat_vars"] = int(m[-1][0])
-        info["sat_clauses"] = int(m[-1][1])
-    m = re.findall(r"Runtime (?:Solver|decision procedure): ([\d.]+)s", out)
-    if m:
-        info["solver_s"] = sum(float(x) for x in m)
-    m = re.search(r"Runtime Symex: ([\d.]+)s", out)
-    if m:
-        info["symex_s"] = float(m.group(1))
-    results = [(r.group("id"), r.group("desc"), r.group("st")) for r in RES_RE.finditer(out)]
-    info["n_properties"] = len(results)
-    failed = [(i, d) for (i, d, s) in results if s == "FAILURE"]
-    bad = [(i, d) for (i, d, s) in results if s in ("UNKNOWN", "ERROR")]
-    if "VERIFICATION SUCCESSFUL" in out:
-        verdict = "holds"
-    elif "VERIFICATION FAILED" in out:
-        verdict = "violated"
-    else:
-        verdict = "inconclusive"
-    if bad and not failed:
-        verdict = "inconclusive"
-    return verdict, failed, info
-
-
-
-
 def compile_native(q, workdir):
     tag = hashlib.sha1(("native" + q.compile_key(False)).encode()).hexdigest()[:16]
     with _lock_for("n" + tag):
@@ -558,6 +447,9 @@ def run_check(prop_id, tier, queries, meta, extra_evidence=None, pre_results=Non
     """Run all queries; print verdict lines; write evidence; return exit code."""
     t0 = time.time()
     seed = int(os.environ.get("VERIF_SEED", "0") or 0)
+    only = os.environ.get("VERIF_ONLY")     # development aid: run the matching queries only (use with VERIF_OUT)
+    if only:
+        queries = [q for q in queries if re.search(only, q.name)]
     os.makedirs(WORKROOT, exist_ok=True)
     workdir = tempfile.mkdtemp(prefix="w%d_" % os.getpid(), dir=WORKROOT)
     replays_dir = os.path.join(OUTBASE, "replays", prop_id)
